@@ -329,6 +329,15 @@ func setFlags(v attr.Value, null, unknown bool) attr.Value {
 	case types.Bool:
 		t.Null, t.Unknown = null, unknown
 		return t
+	case tfx.AltString:
+		t.Null, t.Unknown = null, unknown
+		return t
+	case tfx.AltInt64:
+		t.Null, t.Unknown = null, unknown
+		return t
+	case tfx.AltBool:
+		t.Null, t.Unknown = null, unknown
+		return t
 	case tfx.TimeValue:
 		t.Null, t.Unknown = null, unknown
 		return t
@@ -527,6 +536,12 @@ func convLeaf(av attr.Value, ft reflect.Type) reflect.Value {
 		} else {
 			out.SetString(t.Value)
 		}
+	case tfx.AltString:
+		out.SetString(t.Value)
+	case tfx.AltInt64:
+		out.SetInt(t.Value)
+	case tfx.AltBool:
+		out.SetBool(t.Value)
 	case tfx.TimeValue:
 		out.Set(reflect.ValueOf(t.Value))
 	case tfx.DurationValue:
